@@ -5,6 +5,7 @@ import (
 	"fmt"
 	"net/http"
 	"reflect"
+	"sort"
 	"strings"
 	"sync"
 
@@ -310,7 +311,15 @@ func (r *Router) Resource(basePath string, controller any, middles ...HandlerFun
 	basePath += resName
 
 	r.Group(basePath, func() {
-		for name, methods := range RESTFulActions {
+		// Notice: register the actions in a fixed order. When the base path contains path vars all routes of the
+		// resource are dynamic ones and the first registered route that matches is used: "create" must come before
+		// "show", otherwise GET /res/create can be handled by the show action (map iteration order is random).
+		for _, name := range restfulActionNames() {
+			methods, ok := RESTFulActions[name]
+			if !ok {
+				continue
+			}
+
 			m := cv.MethodByName(name)
 			if !m.IsValid() {
 				continue
@@ -339,6 +348,21 @@ func (r *Router) Resource(basePath string, controller any, middles ...HandlerFun
 			}
 		}
 	}, middles...)
+}
+
+// the action names of RESTFulActions in a fixed order: the standard actions first, then the other names sorted.
+func restfulActionNames() []string {
+	names := []string{IndexAction, CreateAction, StoreAction, ShowAction, EditAction, UpdateAction, DeleteAction}
+	std := strings.Join(names, ",") + ","
+
+	for name := range RESTFulActions {
+		if !strings.Contains(std, name+",") {
+			names = append(names, name)
+		}
+	}
+
+	sort.Strings(names[7:])
+	return names
 }
 
 // NotFound handlers for router
